@@ -150,6 +150,19 @@ fn result_event(ev: Value, res: &Option<BMOC>) -> Value {
   }
   ev
 }
+/// the cells of register `a` pushed in a shuffled order into a BMOCBuilderUnsafe, then `to_bmoc_from_unordered`
+pub fn ev_unordered(rng: &mut Rng, regs: &mut Regs, out: &mut Out, a: usize, o: usize) {
+  let (dmax, mut cs) = { let ra = regs.r[a].as_ref().unwrap(); (ra.get_depth_max(), cells_of(ra)) };
+  if cs.len() > 400 { return; }
+  for k in (1..cs.len()).rev() { let j = rng.below(k as u64 + 1) as usize; cs.swap(k, j); }
+  let res = guarded(|| {
+    let mut b = BMOCBuilderUnsafe::new(dmax, cs.len().max(1));
+    for c in cs.iter() { b.push(c.depth(), c.hash(), c.f); }
+    b.to_bmoc_from_unordered()
+  });
+  out.emit(result_event(json!({"ev": "unordered", "a": a, "out": o}), &res));
+  regs.set(o, res);
+}
 pub fn ev_op(regs: &mut Regs, out: &mut Out, op: &str, a: usize, b: usize, o: usize) {
   let res = {
     let (ra, rb) = (regs.r[a].as_ref().unwrap(), regs.r[b].as_ref().unwrap());
@@ -319,6 +332,8 @@ pub fn record_c09(rng: &mut Rng, count: u64, out: &mut Out) {
       }
       if regs.r[k].is_some() { ev_view(&regs, out, k); }
     }
+    let a = rng.below(4) as usize;
+    if regs.r[a].is_some() { ev_unordered(rng, &mut regs, out, a, 7); if regs.r[7].is_some() { ev_view(&regs, out, 7); } }
     random_ops(rng, &mut regs, out, 6, false, true);
   }
 }
